@@ -142,6 +142,11 @@ class _SimFuture:
 CURRENT_JOB = contextvars.ContextVar("sim_pool_job", default=None)
 
 
+def can_interrupt_waiting_caller():
+    job = CURRENT_JOB.get()
+    return job is not None and not job["interrupted"]
+
+
 def interrupt_waiting_caller():
     """Called on a worker thread of the simulated pool: wake the caller that waits for this
     worker as if it had been interrupted.  Returns False when there is no such caller."""
